@@ -15,14 +15,22 @@ from harness.recipes import ProducerError
 LEVEL = "fault_enumeration"
 RULES = {
     "responses": "Hypothesis: response recipes (all 8 response classes; status codes incl. unassigned ones; header sets, header operations, "
-    "cookies; str/bytes/JSON content; iterables with empty chunks; files with non-ASCII paths and download names; Range requests incl. "
-    "rejected ones; GET/HEAD) x ENUMERATED fault points: ASGI - client disconnect after the k-th send for every k up to the length of "
+    "cookies; str/bytes/JSON content; iterables with empty chunks; files with non-ASCII paths and download names, also names composed of non-ASCII text, ASCII control characters and header "
+    "syntax characters; Range requests incl. rejected ones; GET/HEAD; wsgi.file_wrapper offered in the environ for one request in three, whatever the response class) x ENUMERATED fault points: ASGI - client disconnect after the k-th send for every k up to the length of "
     "the fault-free run, with send() swallowing or raising OSError afterwards; WSGI - the server closes the iterable after k items for "
     "every k (quick tier: a run longer than 48 events keeps its first 17, last 16 and every 8th fault point in between); streaming producers raising at a generated step. evaluations counts gateway runs; non-trivial = a fault point strictly "
     "inside the event sequence, or a fault-free run of a streaming/file/error-path recipe",
     "filegrid": "enumerated product for FileResponse: (size, chunk) pairs x every Range shape (single, suffix, open, multi, unsatisfiable, malformed, empty, positions of more than "
-    "4300 digits) x GET/HEAD x If-Range absent/stale x zero-copy extension offered / not offered / other extensions offered without it, each with every close/disconnect prefix as above; "
-    "hostile download names; files whose name ON DISK holds control characters, quotes or blanks (served as octet-stream without download name)",
+    "4300 digits) x GET/HEAD x If-Range absent/stale x the server's optional file handling (ASGI: zero-copy extension, WSGI: wsgi.file_wrapper in the environ) offered / not offered / "
+    "other extensions offered without it, each with every close/disconnect prefix as above; "
+    "hostile download names; files whose name ON DISK holds control characters, quotes or blanks (served as octet-stream without download name); names that hold BOTH text outside "
+    "ASCII (Latin-1, CJK, combining mark, compatibility characters that NFKD folds to ASCII, NEL / LS) AND an ASCII control character: each of 0x01-0x1f and 0x7f x 4 positions "
+    "(before / between / away from / after the non-ASCII text) x 6 texts x Range answered 200 / 206 / 416, as download_name argument and as name on disk (quick tier: every control "
+    "character x every position, texts and Range rotating)",
+    "offers": "enumerated: the environ holds wsgi.file_wrapper (wsgiref.util.FileWrapper; PEP 3333 optional file handling, offered by every production server) and the scope the zero-copy "
+    "extension, for EVERY response class (they must use the offer correctly or ignore it) x GET/HEAD, directly / behind baize's middleware / returned by a view under request_response; "
+    "files of 0 / 2 / 1 / 4 / 3 blocks x Range (none, single, suffix, multi, unsatisfiable, malformed) x If-Range (none, stale ETag, stale date) x GET/HEAD; all close/disconnect "
+    "prefixes.  Violation = an ITEM of the iterable that is not bytes (an application that RETURNS the wrapper as its iterable is iterated like any other: the wrapper's blocks are bytes)",
     "statuses": "exhaustive: every three-digit status code 100..999 (every 7th plus class edges in the quick tier) through the empty, plain (with and without content), html, json, redirect, stream and "
     "event-stream response on both interfaces; the codes that never carry a body (1xx, 204, 205, 304) are always included",
     "sse_idle": "enumerated: event streams whose producer stays silent for several ping intervals (before / between / after events) x 4 charsets, all close and disconnect prefixes",
@@ -41,7 +49,7 @@ RULES = {
     "size) x GET/HEAD on both interfaces (quick tier: HEAD only for file and plain); the usual oracle with all close/disconnect prefixes, and on the fault-free GET run a Content-Length header, "
     "if present, must equal the number of body bytes emitted",
     "filefaults": "enumerated fault injection for FileResponse: the file is removed / truncated to nothing / truncated to half / extended AFTER the response object was built and "
-    "before it is called x Range shape (none, single, multi) x GET/HEAD x zero-copy extension; the emitted events must be a legal prefix (an exception may escape)",
+    "before it is called x Range shape (none, single, multi) x GET/HEAD x zero-copy extension / wsgi.file_wrapper offered; the emitted events must be a legal prefix (an exception may escape)",
     "reuse": "enumerated: ONE response object (it is an application) serves two requests one after the other.  First request: fault-free, or client disconnect after the k-th send "
     "(every k, send() swallowing / raising afterwards), or the server closing the WSGI iterable after k items (every k), or the producer raising at a scripted step.  Second request to the "
     "SAME object: client stays connected, producer does not raise -> its events must be a complete legal sequence (ASGI: start, >= 1 body events, only the last with more_body false, "
@@ -283,6 +291,8 @@ def build(recipe, side):
         return _Built(resp)
     if recipe.get("kind") == "raw":
         app = dict(recipe["raw"], app="raw")
+    elif recipe.get("via_view"):  # a view function under request_response returns the response
+        app = {"app": "view", "response": {k: v for k, v in recipe.items() if k not in ("wrap", "via_view")}}
     else:
         app = {"app": "response", "response": {k: v for k, v in recipe.items() if k != "wrap"}}
     for kind in recipe.get("wrap", []):  # the answer travels through baize's own middleware layer(s): NextResponse is a response class too
@@ -308,6 +318,8 @@ def request_for(case):
     for name in rq.get("extensions", ()):  # what servers offer besides (or instead of) zero-copy send
         ext[name] = {}
     out = gw.areq(method=rq.get("method", "GET"), path="/r", headers=headers, extensions=ext or None)
+    if rq.get("file_wrapper"):
+        out["file_wrapper"] = True  # the environ offers the optional wsgi.file_wrapper of PEP 3333 (the WSGI counterpart of zero-copy send)
     if rq.get("protocol"):
         out["protocol"] = rq["protocol"]  # SERVER_PROTOCOL of the environ / http_version of the scope
     return out
@@ -476,6 +488,13 @@ def oracle(case) -> Result:
         r.label(f"producer={recipe['iterable']}")
     if case.get("request", {}).get("extensions"):
         r.label("other-extensions-offered")
+    if case.get("request", {}).get("file_wrapper"):
+        r.label("wsgi.file_wrapper-offered")
+    if kind == "file":
+        shown = recipe.get("download_name") or recipe.get("name") or ""
+        ctl, wide = bool(_ATTR_CTL.search(shown)), not shown.isascii()
+        if ctl or wide:
+            r.label("file-name=" + ("non-ASCII+control" if ctl and wide else "control" if ctl else "non-ASCII"))
     if inner_fault:
         r.label("fault-inside-sequence")
     if "raise_at" in recipe:
@@ -800,7 +819,7 @@ def reuse_cases(quick):
     yield {"response": {"kind": "sse", "events": [{"data": "x"}], "delays": [0.025], "ping_interval": 0.01}, "request": dict(get)}
     # files: the second request with the same and with another Range / method / zero-copy offer
     file_requests = [{"method": "GET", "range": None}, {"method": "GET", "range": "bytes=1-3"}, {"method": "GET", "range": "bytes=0-0,2-3"},
-                     {"method": "GET", "range": "bytes=9999-"}, {"method": "HEAD", "range": None}, {"method": "GET", "range": None, "zerocopy": True}]
+                     {"method": "GET", "range": "bytes=9999-"}, {"method": "HEAD", "range": None}, {"method": "GET", "range": None, "zerocopy": True, "file_wrapper": True}]
     for size, chunk in ((5, 3), (0, 3)) if quick else ((5, 3), (0, 3), (1, 1), (12, 4096), (64, 7)):
         for rq in file_requests:
             for rq2 in [None] + [x for x in file_requests if x is not rq and (not quick or x["range"] in (None, "bytes=0-0,2-3"))]:
@@ -862,6 +881,7 @@ SUBS = {
     "protocols": oracle,
     "statuses": oracle_status,
     "filegrid": oracle,
+    "offers": oracle,
     "sse_idle": oracle,
     "sse_fields": oracle,
     "iterables": oracle,
@@ -973,11 +993,11 @@ def filefault_cases(quick):
             for rng in (None, "bytes=1-3", "bytes=0-0,2-3"):
                 for method in ("GET", "HEAD"):
                     for zc in (False, True):
-                        if zc and fault != "vanish":
-                            # with zero-copy send the SERVER reads the file: an announced (offset, count) beyond the end of a
-                            # file that shrank meanwhile is the file's fault, not a protocol error of the application
-                            continue
-                        rq = {"method": method, "range": rng, "zerocopy": zc}
+                        # with zero-copy send the SERVER reads the file: an announced (offset, count) beyond the end of a file
+                        # that shrank meanwhile is the file's fault, not a protocol error of the application -> zero-copy only for
+                        # the file that is gone.  wsgi.file_wrapper: the server's wrapper hands on whatever the file holds by
+                        # then, bytes all the same -> offered for every fault
+                        rq = {"method": method, "range": rng, "zerocopy": zc and fault == "vanish", "file_wrapper": zc}
                         yield {"response": {"kind": "file", "name": "volatile.bin", "size": size, "chunk": chunk}, "request": rq, "fault": fault}
 
 
@@ -1032,6 +1052,48 @@ def protocol_cases():
                     yield {"response": dict(recipe), "request": rq}
 
 
+def offer_cases(quick):
+    """The environ of a real server (gunicorn, uWSGI, mod_wsgi, waitress, wsgiref's handlers) holds the optional key
+    wsgi.file_wrapper (PEP 3333, "Optional Platform-Specific File Handling"); an environ built by hand does not.  An
+    application may hand its file to the wrapper and RETURN the result as its iterable - the server model iterates that like any
+    other iterable and sees the wrapper's blocks, which are bytes - or ignore the offer; every item the server gets is bytes
+    either way.  All response classes (directly and behind baize's middleware / request_response, which pass the environ on), files
+    of several block counts x Range / If-Range / HEAD.  (The ASGI runs of these cases see the zero-copy extension instead.)"""
+    others = [r for r in _KIND_RECIPES if r["kind"] != "file"] + [
+        {"kind": "plain", "content": ""}, {"kind": "empty", "status": 204}, {"kind": "redirect", "url": "/n", "status": 301}, {"kind": "stream", "chunks": []},
+        {"kind": "stream", "chunks": [b"a", b"", b"bc"]}, {"kind": "stream", "chunks": [b"a", b"b"], "raise_at": 1}, {"kind": "stream", "chunks": [b"a", b"b"], "iterable": "list"},
+        {"kind": "sse", "events": []}, {"kind": "sse", "events": [{"data": "x"}, {"id": "1"}], "raise_at": 2},
+    ]
+    for recipe in others:
+        for method in ("GET", "HEAD"):
+            for wrap in (None, ["identity"]):
+                if wrap and recipe.get("iterable"):
+                    continue  # producer objects are put on the response object itself (see build)
+                yield {"response": dict(recipe, wrap=wrap) if wrap else dict(recipe), "request": {"method": method, "file_wrapper": True, "zerocopy": True}}
+    files = [{"size": 0, "chunk": 3}, {"size": 5, "chunk": 3}, {"size": 12, "chunk": 4096}, {"size": 200, "chunk": 64}, {"size": 8193, "bigfile": True}, {"size": 65536 * 2 + 1, "bigfile": True, "chunk": 65536}]
+    for f in files:
+        for rng in (None, "bytes=1-3", "bytes=-2", "bytes=0-0,2-3", "bytes=9999-", "bogus"):
+            for if_range in (None, '"stale-etag"', "Wed, 21 Oct 2015 07:28:00 GMT"):
+                if if_range is not None and rng is None:
+                    continue
+                for method in ("GET", "HEAD"):
+                    for wrap in (None, ["identity"]) if not f.get("bigfile") else (None,):
+                        if quick and wrap and (if_range is not None or rng in ("bytes=-2", "bogus")):
+                            continue
+                        recipe = dict({"kind": "file"}, **f) if f.get("bigfile") else dict({"kind": "file", "name": "f.txt"}, **f)
+                        if wrap:
+                            recipe["wrap"] = wrap
+                        rq = {"method": method, "range": rng, "file_wrapper": True, "zerocopy": True}
+                        if if_range is not None:
+                            rq["if_range"] = if_range
+                        yield {"response": recipe, "request": rq}
+    # the response comes out of a view function (request_response hands the environ on to the response it got)
+    for recipe in ({"kind": "file", "name": "f.txt", "size": 5, "chunk": 3}, {"kind": "file", "name": "\xe9.bin", "size": 200, "chunk": 64}, {"kind": "plain", "content": "x"}):
+        for rng in (None, "bytes=1-3"):
+            for method in ("GET", "HEAD"):
+                yield {"response": dict(recipe, via_view=True), "request": {"method": method, "range": rng, "file_wrapper": True, "zerocopy": True}}
+
+
 def sse_idle_cases():
     """Event streams whose producer stays silent for several ping intervals (before the first event, between
     events, before the end): the keep-alive pings are body items like any other."""
@@ -1054,10 +1116,10 @@ def response_case(draw):
         if draw(st.integers(0, 3)) == 0:
             rq["zerocopy"] = True
         if draw(st.integers(0, 7)) == 0:
-            recipe["download_name"] = draw(st.sampled_from(["a\r\nSet-Cookie: x=1", "a\nb.txt", "nul\x00.bin", "cr\r.txt", "t\tab.txt", "del\x7f.txt"]))
+            recipe["download_name"] = draw(st.one_of(st.sampled_from(["a\r\nSet-Cookie: x=1", "a\nb.txt", "nul\x00.bin", "cr\r.txt", "t\tab.txt", "del\x7f.txt"]), mixed_names))
             recipe["hostile_ctor"] = True
         elif draw(st.integers(0, 7)) == 0:
-            recipe["name"] = draw(st.sampled_from(DISK_NAMES))
+            recipe["name"] = draw(st.one_of(st.sampled_from(DISK_NAMES), mixed_names))
             recipe.pop("download_name", None)
         if not rq.get("zerocopy") and draw(st.integers(0, 3)) == 0:
             rq["extensions"] = draw(st.sampled_from([["http.response.push"], ["http.response.debug", "tls"], ["http.response.trailers"]]))
@@ -1091,6 +1153,8 @@ def response_case(draw):
                     c[attr] = draw(st.sampled_from({"path": ["/", "/a b", "/app"], "domain": ["example.com", "a.example.org"], "samesite": ["strict", "lax", "none"]}[attr]))
             ops.append(c)
         recipe["cookie_ops"] = ops
+    if draw(st.integers(0, 2)) == 0:
+        rq["file_wrapper"] = True  # whatever the response class: the offer is there to be used correctly or to be ignored
     return {"response": recipe, "request": rq}
 
 
@@ -1100,6 +1164,42 @@ def response_case(draw):
 # UnicodeEncodeError at construction (quote() of the surrogate) on both interfaces: nothing is emitted, so not a violation of the
 # statement; observation only.
 DISK_NAMES = ["esc\x1b.bin", "nl\nx.bin", "cr\rx.bin", "del\x7f.bin", "tab\t.bin", "vt\x0b.bin", 'quo"te.bin', "semi;x.bin", "sp ace.bin", "é.bin", "back\\slash.bin", "nel\x85.bin", "ls\u2028.bin"]
+# Names that mix the two character classes a header value cannot carry as they are: text outside ASCII (Latin-1 letters, CJK,
+# a combining mark, compatibility characters that NFKD folds to ASCII, C1 / Unicode line separators) and every ASCII
+# control character, the control character before / between / away from / after the non-ASCII text.
+NAME_LETTERS = ["\xe9", "\u6587\u4ef6", "e\u0301", "\ufb01\uff21", "\xff\x85", "\u2028\u03a9"]
+NAME_CONTROLS = [chr(c) for c in range(0x01, 0x20)] + ["\x7f"]  # NUL: not in a name on disk; as an argument it is in the fixed lists
+NAME_SHAPES = ["{c}{l}.bin", "{l}{c}{l}.bin", "a{c}b{l}.bin", "{l}.bin{c}"]
+_NAME_RANGES = (None, "bytes=0-1", "bytes=9-")
+
+
+def mixed_name(letter, ctl, shape):
+    return shape.replace("{c}", ctl).replace("{l}", letter)
+
+
+def mixed_name_cases(quick):
+    """(download name | name on disk) x control character x shape x non-ASCII text x Range (answered 200 / 206 / 416) x
+    wsgi.file_wrapper + zero-copy offered or not.  Quick tier: every control character in every shape as download name and in
+    two shapes on disk, the non-ASCII text, the Range and the offers rotating (every text meets every shape)."""
+    for ci, ctl in enumerate(NAME_CONTROLS):
+        for si, shape in enumerate(NAME_SHAPES):
+            for li, letter in enumerate(NAME_LETTERS):
+                for ri, rng in enumerate(_NAME_RANGES):
+                    for on_disk in (False, True):
+                        if quick and (li != (ci + si) % len(NAME_LETTERS) or ri != (ci + li) % 3 or on_disk and si % 2 != ci % 2):
+                            continue
+                        offered = (ci + si + ri) % 2 == 1
+                        name = mixed_name(letter, ctl, shape)
+                        recipe = {"kind": "file", "name": name if on_disk else "f.txt", "size": 5, "chunk": 3}
+                        if not on_disk:
+                            recipe["download_name"] = name
+                            recipe["hostile_ctor"] = True  # LF / CR in an argument: refusing it at construction is fine
+                        yield {"response": recipe, "request": {"method": "GET", "range": rng, "zerocopy": offered, "file_wrapper": offered}}
+
+
+_name_piece = st.one_of(st.sampled_from(NAME_LETTERS), st.sampled_from(NAME_CONTROLS), st.sampled_from(["a", "b.", " ", '"', ";", "%", "\\"]))
+mixed_names = st.lists(_name_piece, min_size=1, max_size=5).map(lambda parts: "".join(parts) + ".bin")
+
 HUGE_RANGES = ["bytes=0-" + "9" * 4400, "bytes=" + "1" * 4400 + "-", "bytes=-" + "9" * 4400, "bytes=0-0," + "7" * 5000 + "-"]
 
 
@@ -1114,7 +1214,9 @@ def file_grid(quick):
                     if if_range is not None and rng is None:
                         continue
                     for zc in (False, True):
-                        rq = {"method": method, "range": rng, "zerocopy": zc}
+                        # the optional file handling of the two interfaces - ASGI: the zero-copy send extension in the scope, WSGI:
+                        # wsgi.file_wrapper in the environ.  Each interface sees only its own offer, so the two are walked together
+                        rq = {"method": method, "range": rng, "zerocopy": zc, "file_wrapper": zc}
                         if if_range is not None:
                             rq["if_range"] = if_range
                         yield {"response": {"kind": "file", "name": "f.txt", "size": size, "chunk": chunk}, "request": rq}
@@ -1124,6 +1226,7 @@ def file_grid(quick):
     for name in DISK_NAMES:
         for rng in (None, "bytes=0-1", "bytes=9-"):
             yield {"response": {"kind": "file", "name": name, "size": 5, "chunk": 3}, "request": {"method": "GET", "range": rng}}
+    yield from mixed_name_cases(quick)
     # servers that offer extensions, but not zero-copy send (HTTP/2 push, trailers, debug, TLS information)
     for exts in (["http.response.push"], ["http.response.debug", "tls"], ["http.response.trailers", "http.response.pathsend"]):
         for size, chunk in ((0, 3), (5, 3), (12, 4096)):
@@ -1134,7 +1237,7 @@ def file_grid(quick):
     for rng in HUGE_RANGES:
         for method in ("GET", "HEAD"):
             for zc in (False, True):
-                yield {"response": {"kind": "file", "name": "f.txt", "size": 5, "chunk": 3}, "request": {"method": method, "range": rng, "zerocopy": zc}}
+                yield {"response": {"kind": "file", "name": "f.txt", "size": 5, "chunk": 3}, "request": {"method": method, "range": rng, "zerocopy": zc, "file_wrapper": zc}}
 
 
 def run(rec, only=None):
@@ -1145,6 +1248,8 @@ def run(rec, only=None):
     rec.exhaustive["statuses"] = not quick
     core.drive_cases(rec, "filegrid", file_grid(quick), oracle)
     rec.exhaustive["filegrid"] = True
+    core.drive_cases(rec, "offers", offer_cases(quick), oracle)
+    rec.exhaustive["offers"] = not quick
     core.drive_cases(rec, "protocols", protocol_cases(), oracle)
     rec.exhaustive["protocols"] = True
     core.drive_cases(rec, "wrapped", wrapped_cases(), oracle)
